@@ -4,18 +4,23 @@
 
    Outcome.  For Model/FmtStrict.v dec_strict (only "all octets of a multiprecision integer are present"
    is demanded) the statement is FALSE, in three ways (foreign_normalises_once_refuted,
-   dec_strict_enc_defined_refuted, all by computation on concrete inputs):
-     1. new_len accepts partial body lengths: a partial length 2^13 followed by a final two-octet
-        length 192 spends 3 length octets on 8384 body octets, the encoder spends 5: re-encoding longer;
-     2. inside a two-octet-counted region (signature subpacket area, 65535 octets) the longer
-        re-encoding of subpackets written with partial lengths overflows the count: encoder None;
-     3. without any partial length: a multiprecision integer that declares 65529..65535 bits has 8192
-        value octets; when the first has its top bit set the value has 65536 significant bits, which
-        no two-octet bit count expresses: encoder None.
-   For dec_strict2 (partial lengths refused, 65536-bit values refused) the full statement holds
-   (dec_strict_enc_defined_partial, foreign_normalises_once_partial), with no side condition on the
-   format at all (wf is not needed in this direction), and dec_strict2 accepts everything the encoder
-   writes (dec_strict2_enc), so "well-formed foreign input" includes PGPy's own output. *)
+   dec_strict_enc_defined_refuted, foreign_subpacket_longer, all by computation on concrete inputs):
+     1. longer: new_len accepts partial body lengths: a partial length 2^13 followed by a final two-octet
+        length 192 spends 3 length octets on 8384 body octets, the encoder spends 5; and without any
+        partial length: a SUBPACKET length 8384..16319 may be written with two octets (first octet
+        224..254, RFC 4880 5.2.3.1), the encoder (packet rule: two octets below 8384) spends 5;
+     2. undefined: inside a two-octet-counted region (signature subpacket area, 65535 octets) the longer
+        re-encoding of such subpackets overflows the count: encoder None.  (Since subpacket lengths are
+        read with the subpacket rule, FSubLen, this is no longer a matter of partial lengths, and not
+        an artefact of the model: the area is well-formed by the RFC.);
+     3. undefined: a multiprecision integer that declares 65529..65535 bits has 8192 value octets; when
+        the first has its top bit set the value has 65536 significant bits, which no two-octet bit
+        count expresses: encoder None.
+   For dec_strict2 (a first length octet 224..254 refused under both length rules, 65536-bit values
+   refused) the full statement holds (dec_strict_enc_defined_partial, foreign_normalises_once_partial),
+   with no side condition on the format at all (wf is not needed in this direction), and dec_strict2
+   accepts everything the encoder writes (dec_strict2_enc), so "well-formed foreign input" includes
+   PGPy's own output. *)
 From Coq Require Import ZArith List Bool Lia ZifyBool ZifyNat.
 Import ListNotations.
 Require Import PV.Lib.Bytes PV.Lib.BytesLemmas PV.Model.Wire PV.Proofs.Wire_lemmas PV.Proofs.Wire_lemmas2.
@@ -26,7 +31,7 @@ Open Scope Z_scope.
 Theorem dec_strict_dec : forall fuel f i x, dec_strict fuel f i = Some x -> dec fuel f i = Some x.
 Proof.
   induction fuel as [|fuel IH]; intros f i x H; [discriminate|].
-  destruct f as [n|n|c| | |fa fb|n fa|fa|fa]; cbn [dec_strict] in H; cbn [dec].
+  destruct f as [n|n|c| | |fa fb|n fa|fa|fa|fa]; cbn [dec_strict] in H; cbn [dec].
   - exact H.
   - exact H.
   - exact H.
@@ -45,6 +50,10 @@ Proof.
     destruct (Nat.leb (Z.to_nat l) (length rest)); [|discriminate].
     destruct (dec_strict fuel fa (firstn (Z.to_nat l) rest)) as [[x1 r1]|] eqn:Ea; [|discriminate].
     rewrite (IH _ _ _ Ea). exact H.
+  - destruct (sub_len i) as [[l rest]|]; [|discriminate].
+    destruct (Nat.leb (Z.to_nat l) (length rest)); [|discriminate].
+    destruct (dec_strict fuel fa (firstn (Z.to_nat l) rest)) as [[x1 r1]|] eqn:Ea; [|discriminate].
+    rewrite (IH _ _ _ Ea). exact H.
   - destruct i as [|z t]; [exact H|].
     destruct (dec_strict fuel fa (z :: t)) as [[x1 r1]|] eqn:Ea; [|discriminate].
     rewrite (IH _ _ _ Ea).
@@ -58,10 +67,16 @@ Proof.
   unfold new_len_np, new_len. destruct (parse_len i 0) as [[[pl sz] [|]]|]; intros H; [discriminate|exact H|discriminate].
 Qed.
 
+Lemma sub_len_np_sub_len i x : sub_len_np i = Some x -> sub_len i = Some x.
+Proof.
+  unfold sub_len_np. destruct i as [|p0 t]; [discriminate|].
+  destruct ((224 <=? p0) && (p0 <? 255)); [discriminate|]. intros H. exact H.
+Qed.
+
 Theorem dec_strict2_dec_strict : forall fuel f i x, dec_strict2 fuel f i = Some x -> dec_strict fuel f i = Some x.
 Proof.
   induction fuel as [|fuel IH]; intros f i x H; [discriminate|].
-  destruct f as [n|n|c| | |fa fb|n fa|fa|fa]; cbn [dec_strict2] in H; cbn [dec_strict].
+  destruct f as [n|n|c| | |fa fb|n fa|fa|fa|fa]; cbn [dec_strict2] in H; cbn [dec_strict].
   - exact H.
   - exact H.
   - exact H.
@@ -81,6 +96,11 @@ Proof.
     rewrite (IH _ _ _ Ea). exact H.
   - destruct (new_len_np i) as [[l rest]|] eqn:En; [|discriminate].
     rewrite (new_len_np_new_len _ _ En).
+    destruct (Nat.leb (Z.to_nat l) (length rest)); [|discriminate].
+    destruct (dec_strict2 fuel fa (firstn (Z.to_nat l) rest)) as [[x1 r1]|] eqn:Ea; [|discriminate].
+    rewrite (IH _ _ _ Ea). exact H.
+  - destruct (sub_len_np i) as [[l rest]|] eqn:En; [|discriminate].
+    rewrite (sub_len_np_sub_len _ _ En).
     destruct (Nat.leb (Z.to_nat l) (length rest)); [|discriminate].
     destruct (dec_strict2 fuel fa (firstn (Z.to_nat l) rest)) as [[x1 r1]|] eqn:Ea; [|discriminate].
     rewrite (IH _ _ _ Ea). exact H.
@@ -200,6 +220,39 @@ Qed.
 Lemma some_pair_inv {A B} (a a' : A) (b b' : B) : Some (a, b) = Some (a', b') -> a' = a /\ b' = b.
 Proof. intros H. injection H as <- <-. split; reflexivity. Qed.
 
+(* one subpacket length field, first octet not 224..254: as new_len_np_bound *)
+Lemma sub_len_np_bound i l rest : wf_bytes i -> sub_len_np i = Some (l, rest) ->
+  (Z.to_nat l <= length rest)%nat ->
+  0 <= l < 4294967296 /\
+  exists h, i = h ++ rest /\ (0 < length h)%nat /\
+    forall l', 0 <= l' <= l -> (1 <= length (sub_length l') <= length h)%nat.
+Proof.
+  intros W E L.
+  destruct i as [|fo t]; [discriminate|].
+  pose proof W as W'. apply Forall_cons_iff in W' as [Hfo Wt].
+  unfold sub_len_np in E.
+  destruct ((224 <=? fo) && (fo <? 255)) eqn:C; [discriminate|].
+  unfold sub_len in E.
+  destruct ((192 <=? fo) && (fo <? 255)) eqn:C2.
+  - (* two octets, first octet 192..223: 192..8383 *)
+    destruct t as [|p1 t']; [discriminate|].
+    apply Forall_cons_iff in Wt as [Hp1 Wt'].
+    apply some_pair_inv in E as [-> ->].
+    rewrite Z.shiftl_mul_pow2 by lia. assert (H8 : 2 ^ 8 = 256) by reflexivity. rewrite H8.
+    split; [lia|]. exists [fo; p1]. split; [reflexivity|]. split; [cbn [length]; lia|].
+    intros l' Hl'. rewrite sub_length_new_length, new_length_len by lia. cbn [length].
+    destruct (l' <? 192) eqn:F1; [lia|]. destruct (l' <? 8384) eqn:F2; lia.
+  - (* one or five octets: the packet rule *)
+    assert (En : new_len_np (fo :: t) = Some (l, rest)).
+    { unfold new_len in E. unfold new_len_np.
+      destruct (parse_len (fo :: t) 0) as [[[pl sz] pa]|] eqn:P; [|discriminate].
+      destruct pa; [|exact E].
+      exfalso. unfold parse_len in P. cbn [nth_error] in P.
+      destruct (192 >? fo) eqn:E1; [discriminate|]. destruct (224 >? fo) eqn:E2; [discriminate|].
+      destruct (255 >? fo) eqn:E3; [lia|discriminate]. }
+    exact (new_len_np_bound _ _ _ W En L).
+Qed.
+
 (* ---------- the induction: decoded by dec_strict2, then re-encoded ---------- *)
 (* c is what was consumed: the input is c ++ r, the re-encoding b is no longer than c, and a
    non-empty consumption re-encodes to a non-empty string (needed under FMany) *)
@@ -209,7 +262,7 @@ Theorem dec_strict2_enc_inv : forall fuel f i v r,
               (0 < length c -> 0 < length b)%nat.
 Proof.
   induction fuel as [|fuel IH]; intros f i v r W H; [discriminate|].
-  destruct f as [n|n|c| | |fa fb|n fa|fa|fa]; cbn [dec_strict2] in H.
+  destruct f as [n|n|c| | |fa fb|n fa|fa|fa|fa]; cbn [dec_strict2] in H.
   - (* FBE *)
     destruct (Nat.leb n (length i)) eqn:E; [|discriminate]. apply Nat.leb_le in E.
     apply some_pair_inv in H as [-> ->].
@@ -301,6 +354,23 @@ Proof.
     split; [reflexivity|].
     split; [rewrite <- app_assoc, firstn_skipn; exact Hi|].
     rewrite !app_length, firstn_length_le by assumption. lia.
+  - (* FSubLen *)
+    destruct (sub_len_np i) as [[l rest]|] eqn:En; [|discriminate].
+    destruct (Nat.leb (Z.to_nat l) (length rest)) eqn:E2; [|discriminate]. apply Nat.leb_le in E2.
+    destruct (dec_strict2 fuel fa (firstn (Z.to_nat l) rest)) as [[x r0]|] eqn:Ea; [|discriminate].
+    destruct r0 as [|z0 r0]; [|discriminate]. apply some_pair_inv in H as [-> ->].
+    destruct (sub_len_np_bound i l rest W En E2) as [Bl [h [Hi [Hh NLh]]]].
+    assert (Wrest : wf_bytes rest) by (rewrite Hi in W; apply wf_bytes_app in W; apply W).
+    assert (Wr : wf_bytes (firstn (Z.to_nat l) rest)) by (apply wf_firstn_skipn; exact Wrest).
+    destruct (IH _ _ _ _ Wr Ea) as [p [c0 [Ep [Hi0 [L0 N0]]]]].
+    assert (Hc0 : length c0 = Z.to_nat l).
+    { rewrite app_nil_r in Hi0. rewrite <- Hi0. apply firstn_length_le. exact E2. }
+    pose proof (NLh (Z.of_nat (length p)) ltac:(lia)) as K.
+    exists (sub_length (Z.of_nat (length p)) ++ p), (h ++ firstn (Z.to_nat l) rest). cbn [enc]. rewrite Ep.
+    destruct (Z.of_nat (length p) <? 4294967296) eqn:E3; [|lia].
+    split; [reflexivity|].
+    split; [rewrite <- app_assoc, firstn_skipn; exact Hi|].
+    rewrite !app_length, firstn_length_le by assumption. lia.
   - (* FMany *)
     destruct i as [|z t].
     { apply some_pair_inv in H as [-> ->]. exists [], []. split; [reflexivity|]. split; [reflexivity|]. cbn [length]. lia. }
@@ -380,12 +450,26 @@ Proof.
   rewrite skipn_app_exact by auto. reflexivity.
 Qed.
 
+Lemma sub_len_np_roundtrip n r : 0 <= n < 4294967296 -> sub_len_np (sub_length n ++ r) = Some (n, r).
+Proof.
+  intros H. pose proof (sub_len_roundtrip n r H) as K. rewrite sub_length_new_length in *.
+  destruct (Z_lt_ge_dec n 192) as [C1|C1].
+  { rewrite new_length_1 in * by lia. cbn [app] in *. unfold sub_len_np.
+    destruct ((224 <=? n) && (n <? 255)) eqn:E; [lia|exact K]. }
+  destruct (Z_lt_ge_dec n 8384) as [C2|C2].
+  { rewrite new_length_2 in * by lia. cbn [app] in *. unfold sub_len_np.
+    assert (B : 0 <= (n - 192) / 256 < 32) by (split; [apply Z.div_pos; lia|apply Z.div_lt_upper_bound; lia]).
+    destruct ((224 <=? (n - 192) / 256 + 192) && ((n - 192) / 256 + 192 <? 255)) eqn:E; [lia|exact K]. }
+  rewrite new_length_5 in * by lia. cbn [app] in *. unfold sub_len_np.
+  destruct ((224 <=? 255) && (255 <? 255)) eqn:E; [discriminate E|exact K].
+Qed.
+
 Theorem dec_strict2_enc : forall fuel f m v b r,
   wf m f = true -> enc f v = Some b -> (fuel > depth f + length (inp m b r))%nat ->
   dec_strict2 fuel f (inp m b r) = Some (v, out m r).
 Proof.
   induction fuel as [|fuel IH]; intros f m v b r Hwf He Hf; [lia|].
-  destruct f as [n|n|c| | |fa fb|n fa|fa|fa].
+  destruct f as [n|n|c| | |fa fb|n fa|fa|fa|fa].
   - (* FBE *)
     destruct v as [z| | |]; try discriminate. cbn in He.
     destruct ((0 <=? z) && (z <? 256 ^ Z.of_nat n)) eqn:E; [|discriminate]. injection He as <-.
@@ -474,6 +558,21 @@ Proof.
     pose proof (IH fa false v p [] Hw Ea) as K. cbn [inp out] in K. rewrite K.
     + reflexivity.
     + rewrite !app_length in Hf. lia.
+  - (* FSubLen *)
+    cbn [enc] in He. destruct (enc fa v) as [p|] eqn:Ea; [|discriminate].
+    destruct (Z.of_nat (length p) <? 4294967296) eqn:E; [|discriminate]. injection He as <-.
+    apply Z.ltb_lt in E. cbn [wf] in Hwf. cbn [depth] in Hf.
+    assert (Hw : wf false fa = true) by (destruct m; exact Hwf).
+    cbn [dec_strict2].
+    assert (Hin : inp m (sub_length (Z.of_nat (length p)) ++ p) r = sub_length (Z.of_nat (length p)) ++ (p ++ out m r)).
+    { destruct m; cbn [inp out]; [apply app_assoc_reverse| rewrite app_nil_r; reflexivity]. }
+    rewrite Hin in *.
+    rewrite sub_len_np_roundtrip by lia. rewrite Nat2Z.id.
+    rewrite app_length. replace (Nat.leb (length p) (length p + length (out m r))) with true by (symmetry; apply Nat.leb_le; lia).
+    rewrite firstn_app_exact, skipn_app_exact by reflexivity.
+    pose proof (IH fa false v p [] Hw Ea) as K. cbn [inp out] in K. rewrite K.
+    + reflexivity.
+    + rewrite !app_length in Hf. lia.
   - (* FMany *)
     destruct m; [discriminate|]. cbn [wf] in Hwf. cbn [inp out] in *. cbn [depth] in Hf.
     destruct v as [| | |l]; try discriminate.
@@ -547,12 +646,16 @@ Qed.
    8388 octets in, 1 + 5 + 8384 = 8390 octets out *)
 Definition w_len : bytes := [205; 237] ++ repeat 7 (Z.to_nat 8192) ++ [192; 0] ++ repeat 7 (Z.to_nat 192).
 
-(* signature subpacket area, two-octet count 65535: seven subpackets of 8384 body octets written with
-   partial lengths (8387 octets each, re-encoded 8389) and one of 6824 body octets (6826 octets):
-   the re-encoded content has 65549 octets, which the two-octet count cannot express *)
-Definition w_sp : bytes := [237] ++ repeat 7 (Z.to_nat 8192) ++ [192; 0] ++ repeat 7 (Z.to_nat 192).
+(* signature subpacket area, two-octet count 65535, no partial length anywhere: four subpackets of 16319
+   body octets written with the two-octet length 254 255 (16321 octets each, re-encoded 16324), one of
+   191 and one of 58 body octets (one-octet lengths): the re-encoded content has 65547 octets, which the
+   two-octet count cannot express *)
+Definition w_sp : bytes := [254; 255] ++ repeat 7 (Z.to_nat 16319).
 Definition w_def : bytes :=
-  [255; 255] ++ w_sp ++ w_sp ++ w_sp ++ w_sp ++ w_sp ++ w_sp ++ w_sp ++ [217; 232] ++ repeat 7 (Z.to_nat 6824).
+  [255; 255] ++ w_sp ++ w_sp ++ w_sp ++ w_sp ++ [191] ++ repeat 7 (Z.to_nat 191) ++ [58] ++ repeat 7 (Z.to_nat 58).
+
+(* user attribute packet, five-octet body length, one such subpacket: 16327 octets in, 16330 out *)
+Definition w_sub : bytes := [209; 255; 0; 0; 63; 193] ++ w_sp.
 
 (* session key packet (RSA), one five-octet body length, no partial length anywhere: the multiprecision
    integer declares 65535 bits, so 8192 value octets follow, and the first of them is 255: the value has
@@ -570,7 +673,7 @@ Theorem foreign_normalises_once_refuted :
      enc f v = Some b /\ (length i < length b + length r)%nat) /\
   (exists f i v r, In f all_formats /\ wf_bytes i /\ dec_strict_full f i = Some (v, r) /\ enc f v = None) /\
   (exists i v r, wf_bytes i /\ dec_strict_full f_pkesk_rsa i = Some (v, r) /\ enc f_pkesk_rsa v = None /\
-     (* not a matter of partial lengths: only the second refusal of dec_strict2 applies *)
+     (* not a matter of lengths: only the FMPI refusal of dec_strict2 applies *)
      new_len_np (skipn 1 i) = new_len (skipn 1 i)).
 Proof.
   split; [|split].
@@ -583,6 +686,17 @@ Proof.
   - assert (C : chk_undefined (S (S (depth f_pkesk_rsa + length w_mpi))) f_pkesk_rsa w_mpi = true) by (vm_compute; reflexivity).
     apply chk_undefined_sound in C as [W [v [r [D E]]]].
     exists w_mpi, v, r. split; [exact W|]. split; [exact D|]. split; [exact E|]. vm_compute. reflexivity.
+Qed.
+
+(* re-encoding longer without any partial length: the two-octet subpacket lengths 8384..16319 *)
+Theorem foreign_subpacket_longer :
+  exists i v r b, wf_bytes i /\ dec_strict_full f_uattr i = Some (v, r) /\ enc f_uattr v = Some b /\
+    (length i < length b + length r)%nat /\ new_len_np (skipn 1 i) = new_len (skipn 1 i).
+Proof.
+  assert (C : chk_longer (S (S (depth f_uattr + length w_sub))) f_uattr w_sub = true) by (vm_compute; reflexivity).
+  apply chk_longer_sound in C as [W [v [r [b [D [E L]]]]]].
+  exists w_sub, v, r, b. split; [exact W|]. split; [exact D|]. split; [exact E|]. split; [exact L|].
+  vm_compute. reflexivity.
 Qed.
 
 Theorem dec_strict_enc_defined_refuted :
@@ -670,6 +784,7 @@ Print Assumptions dec_strict2_enc.
 Print Assumptions foreign_normalises_once_partial_strict.
 Print Assumptions foreign_normalises_once_refuted.
 Print Assumptions dec_strict_enc_defined_refuted.
+Print Assumptions foreign_subpacket_longer.
 Print Assumptions foreign_normalises_once_false.
 Print Assumptions tolerant_accepts_unencodable.
 Print Assumptions foreign_example.
